@@ -289,6 +289,15 @@ impl Replayer {
                                 self.warm_chain = Vec::new();
                             }
                         }
+                        if warm_run && pooled.is_none() && !others.contains_key(&3) {
+                            // "while other contexts are being used in the same process": a context WITHOUT database directory exists
+                            // before the long-lived one is created (whoever is created first must not decide what the other one loads)
+                            let mut cfg3 = cfg.clone();
+                            cfg3.db = false;
+                            if let Ok(c3) = Ctx::new(&cfg3, &home) {
+                                others.insert(3, c3);
+                            }
+                        }
                         let mut made = match pooled {
                             Some(mut c) => {
                                 c.finish();
